@@ -551,4 +551,29 @@ def _generic_alias_as_single_predicate(ctx):
         ctx.violation("dump-layout-mismatch:generic-alias-predicate", f"name_mapping(D, omit_default=List[int]): {out!r:.200}", {})
 
 
-DIRECTED = {"generic-alias-as-single-predicate": _generic_alias_as_single_predicate, "omit-default-of-empty-factories": _omit_default_of_empty_factories, "map-reaches-every-descendant": _map_reaches_every_descendant, "enum-class-as-single-predicate": _enum_class_as_single_predicate, "omit-default-unhashable-default": _omit_default_unhashable, "collected-extras-known-branches": _collected_extras_known_branches}
+def _extra_out_with_a_list_root(ctx):
+    """'Only ExtraSkip and ExtraForbid could be used with mapping to list': extra data is merged into the dumped MAPPING, so extra_out on a
+    model whose root is a list is refused when the dumper is created (as collecting extra_in is), not by a TypeError at every dump
+    (defect #95); a nested list under a dict root is fine."""
+    import typing as t  # noqa: PLC0415
+    from dataclasses import field, make_dataclass  # noqa: PLC0415
+
+    from adaptix import ProviderNotFoundError, Retort, name_mapping  # noqa: PLC0415
+
+    X = make_dataclass("XO", [("a", int), ("extra", t.Dict[str, t.Any], field(default_factory=dict))])
+    x = X(1, {"k": 2})
+    for kw, want in (({"as_list": True, "extra_out": "extra"}, None), ({"map": {"a": 0}, "extra_out": "extra"}, None),
+                     ({"map": {"a": ("lst", 0)}, "extra_out": "extra"}, {"lst": [1], "k": 2}), ({"extra_out": "extra"}, {"a": 1, "k": 2}), ({"as_list": True}, [1, {"k": 2}])):
+        r = Retort(recipe=[name_mapping(X, **kw)])
+        made = attempt(r.get_dumper, X)
+        out = attempt(made.value, x) if made.kind == "ok" else made
+        ctx.evaluated(("extra-out-list-root", repr(kw)), nontrivial=True)
+        ctx.count("dumps")
+        if want is None:
+            if made.kind == "ok" or not isinstance(made.exc, ProviderNotFoundError):
+                ctx.violation("excluded-configuration-not-refused:extra_out-with-list-root", f"name_mapping({kw}): get_dumper -> {made!r:.100}, dump -> {out!r:.100}", {"kw": repr(kw)})
+        elif out.kind != "ok" or out.value != want:
+            ctx.violation("dump-layout-mismatch:extra_out", f"name_mapping({kw}): {out!r:.160}, documented {want!r}", {"kw": repr(kw)})
+
+
+DIRECTED = {"extra-out-with-a-list-root": _extra_out_with_a_list_root, "generic-alias-as-single-predicate": _generic_alias_as_single_predicate, "omit-default-of-empty-factories": _omit_default_of_empty_factories, "map-reaches-every-descendant": _map_reaches_every_descendant, "enum-class-as-single-predicate": _enum_class_as_single_predicate, "omit-default-unhashable-default": _omit_default_unhashable, "collected-extras-known-branches": _collected_extras_known_branches}
